@@ -54,33 +54,60 @@ def _evkind(ev):
     return "?", "?"
 
 
-def bucket_of(kind, cls, r, g):
+def _ops_of(expr):
+    import ast
+    try:
+        call = ast.parse(expr, mode="eval").body
+        return ast.literal_eval(call.args[2])
+    except (SyntaxError, ValueError, IndexError, AttributeError):
+        return []
+
+
+def _opname(op):
+    """operation label incl. the thrown exception type: throw[StopIteration], athrow[EA], asend-throw[KeyError]"""
+    if not op:
+        return "?"
+    if op[0] in ("throw", "athrow"):
+        return "%s[%s%s]" % (op[0], op[1][0], "" if len(op[1]) > 1 else ":class")
+    if op[0] == "asend-throw":
+        return "%s[%s]" % (op[0], op[2][0])
+    return op[0]
+
+
+def bucket_of(kind, cls, r, g, expr=""):
+    """<kind>|<operation>@<state of the object before the step>|<CPython event>><compiled event>
+    state: fresh (never started), fresh* (a send of a non-None value to the unstarted object failed before),
+    suspended, finished"""
     ck = cls.split(":")[0]
     if ck.startswith("crash") or ck in ("timeout", "notrun"):
         return "%s|%s" % (kind, cls)
     rs, gs = _steps(r), _steps(g)
     if rs is None or gs is None:
         return "%s|driver:%s" % (kind, cls)
+    ops = _ops_of(expr)
     state = "fresh"
     for i, (a, b) in enumerate(zip(rs, gs)):
         ra, ga = a[1][0], b[1][0]
         op, rk = _evkind(ra)
+        opn = _opname(ops[i]) if i < len(ops) else op
         if a != b:
             _, gk = _evkind(ga)
             if ra == ga:
-                return "%s|%s@%s|%s|bodylog" % (kind, op, state, rk)
+                return "%s|%s@%s|%s|bodylog" % (kind, opn, state, rk)
             if rk == gk:
-                return "%s|%s@%s|%s|value" % (kind, op, state, rk)
-            return "%s|%s@%s|%s>%s" % (kind, op, state, rk, gk)
+                return "%s|%s@%s|%s|value" % (kind, opn, state, rk)
+            return "%s|%s@%s|%s>%s" % (kind, opn, state, rk, gk)
         if rk in ("yield", "result", "first"):
             state = "suspended"
-        elif rk.startswith("exc") and state == "fresh" and rk in ("exc:TypeError",):
-            state = "fresh"
-        elif rk.startswith("stop") or rk.startswith("exc"):
+        elif rk == "exc:TypeError" and state in ("fresh", "fresh*") and op in ("send", "asend", "asend-throw", "abandon-step"):
+            state = "fresh*"
+        elif op in ("close", "aclose") and rk == "exc:RuntimeError":
+            pass            # the body ignored GeneratorExit by yielding: the object is still alive
+        elif rk.startswith("stop") or rk.startswith("exc") or op == "close":
             state = "finished"
-        elif rk.startswith("close") or (op == "close"):
-            state = "finished"
-    return "%s|length" % kind
+    if len(rs) != len(gs):
+        return "%s|length" % kind
+    return "%s|final|bodylog" % kind
 
 
 def _shard(arg):
@@ -108,7 +135,7 @@ def _shard(arg):
                 part.count("timeouts")
             cls = diffmod.compare(r, g, "full")
             if cls is not None:
-                b = bucket_of(meta["kind"], cls, r, g)
+                b = bucket_of(meta["kind"], cls, r, g, c["expr"])
                 part.violation(b, case_of(it, [c["expr"]]),
                                "%s: %s: CPython %s vs compiled %s" % (c["expr"], cls, diffmod.json_short(r, 900), diffmod.json_short(g, 900)))
 
@@ -138,10 +165,10 @@ def _reduce_one(job):
             return False
         for r, g in zip(res.ref[0], res.got[0]):
             cls = diffmod.compare(r, g, "full")
-            if cls is not None and bucket_of(case.get("kind", "?"), cls, r, g) == bucket:
+            if cls is not None and bucket_of(case.get("kind", "?"), cls, r, g, case["exprs"][0]) == bucket:
                 return True
         return False
-    return bucket, e2util.reduce_ast(case["src"], pred, budget=14)
+    return bucket, e2util.reduce_ast(case["src"], pred, budget=10)
 
 
 def run(ctx):
@@ -150,7 +177,7 @@ def run(ctx):
     findings = harness.load_findings()
     firsts = {}
     for bucket, case, what in ctx.violations:
-        if "|" in bucket and bucket not in firsts and len(firsts) < 5 \
+        if "|" in bucket and bucket not in firsts and len(firsts) < 3 \
                 and harness.match_finding(PID, bucket, case, findings) is None:
             firsts[bucket] = case
     jobs = [(b, c, ctx.work) for b, c in firsts.items()]
@@ -178,6 +205,6 @@ def replay(ctx, case):
     for e, r, g in zip(case["exprs"], res.ref[0], res.got[0]):
         c = diffmod.compare(r, g, "full")
         if c is not None:
-            return True, "%s: %s: CPython %s vs compiled %s" % (e, bucket_of(case.get("kind", "?"), c, r, g),
+            return True, "%s: %s: CPython %s vs compiled %s" % (e, bucket_of(case.get("kind", "?"), c, r, g, e),
                                                                diffmod.json_short(r, 700), diffmod.json_short(g, 700))
     return False, "outcomes agree"
